@@ -452,6 +452,23 @@ def drive(prop, universes, seed, level="exploration", minimise=True):
                     if replay_rows(cand, prop):
                         viol = cand
                 res.add(viol)
+    # Rows can fail because of what the worker's Balancer did in earlier runs (state kept on the
+    # instance).  Such cases do not fail again on a fresh Balancer; find, per root cause, cases
+    # that do and let the runner try those first.
+    by_key = {}
+    for v in res.violations:
+        by_key.setdefault(repr(v.key), []).append(v)
+    cands = []
+    for k, vs in by_key.items():
+        if len(vs) > 3:
+            vs = sorted(vs, key=lambda v: len(repr(v.case)))
+            step = max(1, len(vs) // 60)
+            cands += vs[::step][:60]
+    if cands:
+        ok = pmap("checks.pipefam:confirm_job", [{"v": v.to_dict(), "prop": prop} for v in cands], chunk=1, seed=seed, timeout=7200)
+        for v, good in zip(cands, ok):
+            if good:
+                v.priority = 0
     res.coverage = {
         "evaluations": n_rows,
         "distinct_nontrivial": len(nt),
@@ -460,6 +477,12 @@ def drive(prop, universes, seed, level="exploration", minimise=True):
         "exhaustive": True,
     }
     return res
+
+
+def confirm_job(job):
+    from mc.report import Violation
+
+    return bool(replay_rows(Violation.from_dict(job["v"]), job["prop"]))
 
 
 def replay_rows(v, prop):
